@@ -26,6 +26,7 @@ import TTModel.Scalar
 import TTModel.AmenStep
 import TTModel.GradApi
 import TTModel.Maxvol
+import TTModel.DType
 /-!
 # Line-protocol driver: one operation per input line, one canonical outcome per output line.
 
@@ -656,6 +657,20 @@ def run : PM String := do
         match GradApi.grad f sel with
         | none => pure "gs err-grad"
         | some l => pure ("gs " ++ toString l.length ++ " " ++ " ".intercalate (l.map (fun o => match o with | some k => toString k | none => "-")))
+  | "promote" => do
+      -- `promote n dt_1 … dt_n`: dtype of a result that holds the entries of operands with these dtypes (n ≥ 1)
+      let n ← nat; let ds ← many n next
+      match ds.toList.mapM DType.ofString with
+      | some (a :: l) => pure ("dt " ++ DType.toStr (DType.promoteAll a l))
+      | _ => throw "dtype?"
+  | "gradlist" => do
+      -- `gradlist n d_1 … d_n flag`: layout of `grad_list(val, tensors, all_in_one = flag)` for tensors with d_t cores
+      let n ← nat; let ds ← many n nat; let fl ← nat
+      let sh := fun (p : Nat × Nat) => toString p.1 ++ "." ++ toString p.2
+      if fl == 1 then
+        pure ("gl flat " ++ " ".intercalate ((GradApi.gradListFlat ds.toList).map sh))
+      else
+        pure ("gl nested " ++ " | ".intercalate ((GradApi.gradListNested ds.toList).map (fun l => " ".intercalate (l.map sh))))
   | "amenupd" => do
       -- `amenupd core_k core_k+1 r U(rows×r) W(r×r1) (0 | 1 radd uk(rows×radd) r' Q(rows×r') R(r'×(r+radd)))`
       let c ← core; let nxt ← core
